@@ -35,10 +35,62 @@ GLOBAL_ASSUMPTIONS = [
 ]
 
 
+SHARD_FIRST = 24       # paths a shardable task explores before its remaining sub-trees are distributed
+SHARD_BUDGET = 48      # paths per distributed job (its leftovers are re-queued)
+
+
 def _run_task(i):
     t = _TASKS[i]
     repo = Repo()
+    if getattr(t, "shard", False):
+        return t.run(repo, budget=SHARD_FIRST)
     return t.run(repo)
+
+
+def _run_shard(job):
+    i, prefixes = job
+    t = _TASKS[i]
+    r = t.run(Repo(), start=prefixes, budget=SHARD_BUDGET)
+    r["_task_index"] = i
+    return r
+
+
+def _merge(into, r):
+    into["records"].extend(r["records"])
+    for k in ("models", "summaries", "inlined"):
+        into[k] = sorted(set(into[k]) | set(r[k]))
+    for k in ("paths", "solver_ms", "queries", "wall_s"):
+        into[k] += r[k]
+    if r["error"] and not into["error"]:
+        into["error"] = r["error"]
+    if r["undecided"] and not into["undecided"]:
+        into["undecided"] = r["undecided"]
+
+
+def run_all(jobs):
+    """phase 1: every task (shardable ones with a small path budget); phase 2: the unexplored sub-trees of the shardable
+    tasks, spread over the pool until none is left"""
+    n = len(_TASKS)
+    if jobs == 1:
+        results = [_run_task(i) for i in range(n)]
+        pending = [(i, [p]) for i, r in enumerate(results) for p in r.get("leftover", [])]
+        while pending:
+            job = pending.pop()
+            r = _run_shard(job)
+            _merge(results[job[0]], r)
+            pending.extend((job[0], [p]) for p in r.get("leftover", []))
+        return results
+    ctx = mp.get_context("fork")
+    with ctx.Pool(jobs) as pool:
+        results = pool.map(_run_task, range(n), chunksize=1)
+        pending = [(i, [p]) for i, r in enumerate(results) for p in r.get("leftover", [])]
+        while pending:
+            batch, pending = pending, []
+            for r in pool.imap_unordered(_run_shard, batch, chunksize=1):
+                i = r["_task_index"]
+                _merge(results[i], r)
+                pending.extend((i, [p]) for p in r.get("leftover", []))
+    return results
 
 
 def load_findings():
@@ -102,7 +154,11 @@ def _explanation(mod, ev_level, n_ob, discharged, known, violations, undec_obs, 
 
 
 def sanitize(s):
-    return re.sub(r"[^A-Za-z0-9_.-]+", "_", s)[:150]
+    import hashlib
+    t = re.sub(r"[^A-Za-z0-9_.-]+", "_", s)
+    if len(t) > 150:
+        t = t[:140] + "_" + hashlib.sha1(s.encode()).hexdigest()[:8]     # distinct obligations keep distinct replay files
+    return t
 
 
 def main(argv=None):
@@ -159,13 +215,8 @@ def main(argv=None):
         print(f"CHECKER-ERROR property={prop} zero tasks")
         return 3
 
-    jobs = max(1, min(a.jobs, len(_TASKS)))
-    if jobs == 1:
-        results = [_run_task(i) for i in range(len(_TASKS))]
-    else:
-        ctx = mp.get_context("fork")
-        with ctx.Pool(jobs) as pool:
-            results = pool.map(_run_task, range(len(_TASKS)), chunksize=1)
+    jobs = max(1, a.jobs if any(getattr(t, "shard", False) for t in _TASKS) else min(a.jobs, len(_TASKS)))
+    results = run_all(jobs)
 
     alt_note = None
     if hasattr(mod, "postprocess") and not a.only:
